@@ -202,6 +202,10 @@ func (fs *FS) OpenFile(name string, flag int, perm hackpadfs.FileMode) (afFile h
 	storeFile, err := files[0], errs[0]
 	switch {
 	case err == nil:
+		if flag&(hackpadfs.FlagCreate|hackpadfs.FlagExclusive) == hackpadfs.FlagCreate|hackpadfs.FlagExclusive {
+			// exclusive create must create the file
+			return nil, &hackpadfs.PathError{Op: "open", Path: name, Err: hackpadfs.ErrExist}
+		}
 		if storeFile.info().IsDir() && flag&(hackpadfs.FlagCreate|hackpadfs.FlagWriteOnly|hackpadfs.FlagReadWrite|hackpadfs.FlagTruncate) != 0 {
 			// write access, create or truncate on a directory isn't allowed on hackpadfs.OpenFile
 			return nil, &hackpadfs.PathError{Op: "open", Path: name, Err: hackpadfs.ErrIsDir}
